@@ -197,6 +197,10 @@ def check_units(ctx: Ctx):
                 u = env.unit(o)
                 ctx.ob("C04-O1", "R4 SIGN-UNIT", f, f"Result#{k} objective is in the user's sense", u in (U, N), f"`{ast.unparse(o)}` has unit {u}", node=s.call)
     ctx.floor("unit-carrying ordering comparisons in milp.py", n_cmp, 6)
+    if ctx.repo.has_func(MOD, "_compute_gap"):
+        from .sat_common import _need as _need_gap
+
+        ctx.step(_need_gap, "C04-O1", "R18 table", ctx.func(MOD, "_compute_gap"), "the gap is the distance between incumbent and bound, relative to the incumbent (absolute next to zero) - a real number", ["if abs(best_obj) < 1e-10:\n    return abs(best_obj - bound)", "return abs(best_obj - bound) / abs(best_obj)"], "solve_milp stops with OPTIMAL as soon as the gap is below gap_tol: a quotient that is floored (or taken relative to something else) reads every gap below 100% as 0, and the first improving leaf is published as the optimum while better nodes wait in the heap")
 
 
 def _under_minimize_guard(f, cmp: ast.Compare) -> bool:
@@ -414,8 +418,9 @@ def check_certified(ctx: Ctx, f):
                     if tgt is None or (isinstance(tgt, ast.Constant) and tgt.value is None):
                         continue
                     ga = g3.guard_atoms(c3.node_of(a), stable_only=False)
-                    ok = any(x.startswith(f"T:{CERT}(") for x in ga) or (atom_of("res.status == LPStatus.OPTIMAL") in ga and "branch_var is None" in ga)
-                    ctx.ob("C04-O3", "R14 GATE", sm, f"sub-MIP incumbent `{ast.unparse(tgt)[:30]}` certified", ok, f"{sorted(ga)}", node=a)
+                    vec = next((x for x in names_in(tgt) if x not in ("tuple", "list")), "?")
+                    ok = any(x.startswith(f"T:{CERT}({vec},") for x in ga) or (atom_of("res.status == LPStatus.OPTIMAL") in ga and "branch_var is None" in ga and vec in ("res", "node_sol"))
+                    ctx.ob("C04-O3", "R14 GATE", sm, f"sub-MIP incumbent `{ast.unparse(tgt)[:30]}` certified: the vector that is stored is the one that passed the test", ok, f"stored `{vec}` under {sorted(x for x in ga if CERT in x or 'status' in x or 'branch_var' in x)}: a neighbour of the certified vector (the LP point next to its rounding) was certified by nobody - it can be fractional, and solve_milp adopts what the LNS pass returns on its objective alone", node=a)
             else:
                 ok = atom_of("result.status == LPStatus.OPTIMAL") in at and "F:frac_vars" in at
                 ctx.ob("C04-O3", "R14 GATE", sm, f"sub-MIP return `{v}` is an LP-optimal point without fractional free variable", ok, f"{sorted(at)}", node=n)
@@ -853,7 +858,19 @@ def _t_swap_lists_kept_in_step(tree):
     _hoist_swap_lists(tree, "zeros[zeros.index(j_on)] = j_off")
 
 
+def _v_sub_mip_stores_lp_point(tree):
+    g = M.find_func(tree, "_solve_sub_mip")
+    M.replace_stmt(g, lambda s: M.src_is(s, "best_sol = tuple(rounded)"), M.stmts("best_sol = tuple(sol)"))
+
+
+def _v_gap_floored(tree):
+    g = M.find_func(tree, "_compute_gap")
+    M.replace_expr(g, lambda e: M.src_is(e, "abs(best_obj - bound) / abs(best_obj)"), M.expr("abs(best_obj - bound) // abs(best_obj)"))
+
+
 VARIANTS = [
+    M.Variant("the sub-MIP certifies the rounded point and stores the LP point next to it (seed C04-Y)", ML, _v_sub_mip_stores_lp_point, "C04-O3"),
+    M.Variant("the relative gap is a floored quotient: every gap below 100% reads as 0 (seed C04-Z)", ML, _v_gap_floored, "C04-O1"),
     M.Variant("swap candidate lists kept by hand, the new one never leaves `zeros` (seed C04-X)", ML, _v_swap_lists_missed_update, "C04-O3"),
     M.Variant("twin: swap candidate lists kept in step by hand (both lists lose one index and gain the other)", ML, _t_swap_lists_kept_in_step, None),
     M.Variant("solve_milp hands its eps = 1e-6 to the simplex (original defect, ledger row 69)", ML, _v_eps_forwarded_to_lp, "C04-O12"),
